@@ -344,7 +344,8 @@ func c05r4(r *R) {
 		if p.hasCond(func(c string) bool { return strings.HasPrefix(c, "(net.SplitHostPort(") && strings.HasSuffix(c, "#2 != nil)") }) && p.Ret[len(p.Ret)-1] == "nil" {
 			why = append(why, "entry with an unparsable host:port is accepted")
 		}
-		if p.hasCond(func(c string) bool { return strings.HasSuffix(c, "#2") && strings.HasPrefix(c, "!strings.Cut(") }) && p.Ret[len(p.Ret)-1] == "nil" {
+		if p.hasCond(func(c string) bool { return strings.HasSuffix(c, "#2") && strings.HasPrefix(c, "!strings.Cut(") }) && p.Ret[len(p.Ret)-1] == "nil" &&
+			!p.hasCond(func(c string) bool { return strings.HasSuffix(c, ` == "DIRECT")`) && !strings.HasPrefix(c, "!") }) { // the bare word DIRECT has no host:port
 			why = append(why, "entry without host:port is accepted")
 		}
 		if p.Ret[len(p.Ret)-1] == "nil" {
